@@ -1,12 +1,14 @@
 package main
 
 import (
+	"fmt"
 	"math/big"
 
 	"github.com/cometbft/cometbft/abci/types"
 
 	"github.com/oasisprotocol/oasis-core/go/common/cbor"
 	"github.com/oasisprotocol/oasis-core/go/common/quantity"
+	"github.com/oasisprotocol/oasis-core/go/consensus/api/transaction"
 	governance "github.com/oasisprotocol/oasis-core/go/governance/api"
 	schedulerAPI "github.com/oasisprotocol/oasis-core/go/scheduler/api"
 	staking "github.com/oasisprotocol/oasis-core/go/staking/api"
@@ -44,6 +46,7 @@ func baseKnobs(k *knobs) {
 	k.Commission = []uint64{5000, 10000, 15000, 20000}
 	k.VoteNoEntity = true
 	k.MinValidators = 1
+	k.MinGasPrice, k.ByteGas = 0, 1
 }
 
 func init() {
@@ -324,6 +327,34 @@ func init() {
 				for _, id := range w.proposalIDs() {
 					for _, v := range g.Validators {
 						bp.txs = append(bp.txs, genTx{raw: muxdrv.Sign(v.Entity, muxdrv.TxCastVote(w.nextNonce(v.Entity, local), fee, id, governance.VoteYes)), kind: "cast_vote"})
+					}
+				}
+			}
+			return bp
+		},
+	})
+
+	// (8) Fee shapes under a positive minimum gas price and NO per-byte gas cost: a validly
+	// signed transfer with Fee{amount > 0, gas 0} (its gas price is 0: rejected, nothing else),
+	// amount 0 gas 0, no fee, gas 2^64-1, exactly the minimum.
+	scripts = append(scripts, &script{
+		name: "zerogasfee", blocks: 6,
+		knobs: func(k *knobs) { baseKnobs(k); k.MinGasPrice, k.ByteGas = 1, 0 },
+		block: func(w *world, b int) *blockPlan {
+			g := w.g
+			bp := &blockPlan{proposer: b % len(w.props), votes: muxdrv.VotesAll, votesTag: "all"}
+			local := map[staking.Address]uint64{}
+			fees := []*transaction.Fee{
+				muxdrv.Fee(5, 0), muxdrv.Fee(0, 0), nil, muxdrv.Fee(muxdrv.DefaultGas, muxdrv.DefaultGas),
+				{Amount: qU(7), Gas: transaction.Gas(^uint64(0))}, muxdrv.Fee(muxdrv.DefaultGas-1, muxdrv.DefaultGas),
+			}
+			if b >= 1 && b <= 3 {
+				for i, f := range fees {
+					a := g.Accounts[1+i%3]
+					tx := staking.NewTransferTx(w.nextNonce(a.Key, local), f, &staking.Transfer{To: g.Accounts[5].Address, Amount: qU(10)})
+					bp.txs = append(bp.txs, genTx{raw: muxdrv.Sign(a.Key, tx), kind: fmt.Sprintf("transfer (fee shape %d)", i)})
+					if i != 3 {
+						local[a.Address]-- // rejected before the nonce is consumed
 					}
 				}
 			}
